@@ -310,5 +310,5 @@ func (p *Program) anyWFDef() string {
 	for _, t := range p.ptrTags {
 		ds = append(ds, eq("(a.tag x)", num(int64(t))))
 	}
-	return "(define-fun is_ptr_tag ((x Any)) Bool " + or(ds...) + ")\n(define-fun is_wf_any ((x Any)) Bool (and (<= 0 (a.tag x)) (=> (is_ptr_tag x) (< 0 (a.i x)))))\n"
+	return "(define-fun is_ptr_tag ((x Any)) Bool " + or(ds...) + ")\n(define-fun is_wf_any ((x Any)) Bool (and (<= 0 (a.tag x)) (=> (= (a.tag x) 0) (= x nil_any)) (=> (is_ptr_tag x) (< 0 (a.i x)))))\n"
 }
